@@ -53,7 +53,7 @@ pub fn run(prop: &str) {
     let thorough = rep.thorough();
     let monitors = Monitors { c03: prop == "C03", c04: prop == "C04", c13: prop == "C13", c15: false, c19: prop == "C19" };
     let k_max: u32 = std::env::var("VERIF_K").ok().and_then(|v| v.parse().ok()).unwrap_or(if thorough { 3 } else { 2 });
-    let budget = if thorough { 2400.0 } else { 50.0 };
+    let budget = mc::budget(thorough, 50.0, if prop == "C03" || prop == "C13" { 0.5 } else { 1.0 });
     let start = clock::wall();
     let wl = workloads(thorough);
     let per = budget / wl.len() as f64;
@@ -107,7 +107,7 @@ pub fn run(prop: &str) {
     // C03 / C13 are also decided against a malicious peer / on-path attacker
     if prop == "C03" || prop == "C13" {
         let ak: u32 = std::env::var("VERIF_AK").ok().and_then(|v| v.parse().ok()).unwrap_or(if thorough { 5 } else { 4 });
-        let (st, vio, samples) = crate::attack::explore(prop, thorough, if thorough { 1800.0 } else { 40.0 }, ak);
+        let (st, vio, samples) = crate::attack::explore(prop, thorough, mc::budget(thorough, 40.0, 0.5), ak);
         rep.set("attacker_worlds_states", st.states);
         rep.set("attacker_worlds_executions", st.executions);
         rep.set("attacker_move_bound", ak as u64);
